@@ -35,3 +35,126 @@ Definition stmt_update_restores_diag : Prop :=
           nth (nth (nth j dfull 0) perm 0) ldl' (zero O)
           = let d := nth (nth j dfull 0) kkt (zero O) in
             if Z.eqb (nth j dsigns 0%Z) 1 then add O d eps else sub O d eps).
+
+(** ** The fill machinery, generically: a *script* is the list of tagged entries in the order
+    the code performs its [put]s.  [script_counts] is what the count pass must leave in
+    K.colptr; [script_init] is the state after [colcount_to_colptr]; [run_script] performs the
+    puts.  [stmt_fill_script]: whatever the script, the result is the CSC matrix whose column j
+    is the sub-list of the script with column j (in script order), colptr = prefix sums (after
+    [backshift_colptrs]), and the slot returned for an entry is the position of its tag. *)
+Definition bucket (es : list ent) (j : nat) : list ent := filter (fun e => ecol e =? j) es.
+Definition buckets (N : nat) (es : list ent) : list (list ent) := map (bucket es) (seq 0 N).
+Definition script_counts (N : nat) (es : list ent) : list nat :=
+  map (fun j => length (bucket es j)) (seq 0 N) ++ [0].
+Fixpoint psums (acc : nat) (l : list nat) : list nat :=
+  match l with [] => [acc] | c :: r => acc :: psums (acc + c) r end.
+
+Section Script.
+Context {T : Type} (O : Ops T) (val : tag -> T).
+Fixpoint run_script (s : @st T) (es : list ent) : @st T * list nat :=
+  match es with
+  | [] => (s, [])
+  | e :: r =>
+      let '(s1, d) := put s (ecol e) (erow e) (val (etag e)) in
+      let '(s2, ds) := run_script s1 r in (s2, d :: ds)
+  end.
+Definition script_init (N : nat) (es : list ent) : @st T :=
+  mkSt (colcount_to_colptr 0 (script_counts N es)) (repeat 0 (length es)) (repeat (zero O) (length es)).
+End Script.
+
+Definition stmt_fill_script : Prop :=
+  forall T (O : Ops T) (val : tag -> T) (N : nat) (es : list ent),
+    cols_lt N es -> tags_nodup es ->
+    let se := concat (buckets N es) in
+    let '(s, ds) := run_script val (script_init O N es) es in
+    backshift_colptrs (cp s) = psums 0 (map (@length ent) (buckets N es))
+    /\ rv s = map erow se
+    /\ nz s = map (fun e => val (etag e)) se
+    /\ ds = map (fun e => pos se (etag e)) es.
+
+
+(** ** Refinement, Triu layout: the Spec's entry list [entries_triu] is already in the order
+    in which [assemble] performs its puts (P block, missing diagonal, A', then per cone the Hs
+    block and the expansion columns).  Running it as a script reproduces the intended matrix
+    and every tag position, provided each column is filled in non-decreasing row order. *)
+Fixpoint rows_sorted (l : list ent) : Prop :=
+  match l with
+  | a :: ((b :: _) as r) => erow a <= erow b /\ rows_sorted r
+  | _ => True
+  end.
+Definition buckets_sorted (N : nat) (es : list ent) : Prop :=
+  forall j, j < N -> rows_sorted (bucket es j).
+
+Definition stmt_maps_partition : Prop :=
+  forall T (P A : @csc T) (shapes : list shape) (tri : triangle), wf_input P A shapes ->
+    let es := entries P A shapes tri in
+    let se := sorted_entries (kdim P A shapes) es in
+    length se = length es
+    /\ (forall t, In t (map etag es) -> pos se t < length se /\ etag (nth (pos se t) se (0, 0, TP 0)) = t)
+    /\ (forall t t', In t (map etag es) -> In t' (map etag es) -> pos se t = pos se t' -> t = t')
+    /\ (forall q, q < length se -> exists t, In t (map etag es) /\ pos se t = q).
+
+Definition stmt_triu_script_refines_spec : Prop :=
+  forall T (O : Ops T) (P A : @csc T) (shapes : list shape), wf_input P A shapes ->
+    let es := entries_triu P A shapes in
+    let N := kdim P A shapes in
+    buckets_sorted N es ->
+    let '(s, ds) := run_script (tag_val O P A) (script_init O N es) es in
+    mkRaw N N (backshift_colptrs (cp s)) (rv s) (nz s) = encode (kkt_matrix O P A shapes Triu)
+    /\ ds = map (fun e => pos (sorted_entries N es) (etag e)) es.
+
+
+(** ** The cone loop of [_kkt_assemble_fill] (Triu) is a script run: for every shape list (Diag,
+    Dense, SocSparse, GenPow) the loop performs exactly the puts of the Spec's [eCones], and the
+    Hsblocks / sparse maps it records are the returned slots, regrouped cone by cone. *)
+Definition take {X} (n : nat) (l : list X) : list X * list X := (firstn n l, skipn n l).
+(** regroup the slots returned by the puts of one cone into its Hs block and sparse map;
+    returns also the slots that belong to later cones *)
+Definition regroup1 (s : shape) (ds : list nat) : list nat * list smap * list nat :=
+  let '(blk, r0) := take (blocklen s) ds in
+  match s with
+  | SocSparse d =>
+      let '(v, r1) := take d r0 in let '(u, r2) := take d r1 in let '(dd, r3) := take 2 r2 in
+      (blk, [SocMap u v dd], r3)
+  | GenPow d1 d2 =>
+      let '(q, r1) := take d1 r0 in let '(r, r2) := take d2 r1 in
+      let '(p, r3) := take (d1 + d2) r2 in let '(dd, r4) := take 3 r3 in
+      (blk, [GpMap p q r dd], r4)
+  | _ => (blk, [], r0)
+  end.
+Fixpoint regroup (shapes : list shape) (ds : list nat) : list nat * list smap :=
+  match shapes with
+  | [] => ([], [])
+  | s :: r =>
+      let '(blk, sm, rest) := regroup1 s ds in
+      let '(blks, sms) := regroup r rest in
+      (blk ++ blks, sm ++ sms)
+  end.
+Definition stmt_cones_fill_script : Prop :=
+  forall T (O : Ops T) (val : tag -> T) (s : @st T) (shapes : list shape) (c row pcol : nat),
+    (forall e, In e (eCones c row pcol shapes) -> val (etag e) = zero O) ->
+    let '(s1, hs, sps) := cones_fill O s shapes row pcol Triu in
+    let '(s2, ds) := run_script val s (eCones c row pcol shapes) in
+    s1 = s2 /\ (hs, sps) = regroup shapes ds.
+
+
+(** boolean form of [buckets_sorted], evaluated by the correspondence on every Triu layout *)
+Fixpoint rows_sortedb (l : list ent) : bool :=
+  match l with
+  | a :: ((b :: _) as r) => (erow a <=? erow b) && rows_sortedb r
+  | _ => true
+  end.
+Definition buckets_sortedb (N : nat) (es : list ent) : bool :=
+  forallb (fun j => rows_sortedb (bucket es j)) (seq 0 N).
+Definition stmt_buckets_sortedb_sound : Prop :=
+  forall N es, buckets_sortedb N es = true -> buckets_sorted N es.
+
+(** ** count pass, cone loop (Triu): it adds exactly one count per Spec entry of [eCones], in that
+    entry's column (all four shapes) *)
+(** one count per entry, in its column: what a count pass must do for a list of entries *)
+Definition add_counts (cp : list nat) (es : list ent) : list nat :=
+  fold_left (fun cp e => incr cp (ecol e) 1) es cp.
+Definition stmt_cones_colcounts : Prop :=
+  forall (shapes : list shape) (cp : list nat) (c row pcol : nat),
+    cones_colcounts cp shapes row pcol Triu = add_counts cp (eCones c row pcol shapes).
+
